@@ -171,6 +171,12 @@ func Exec(p prog.Program) kit.Outcome {
 type BlockCase struct {
 	Poppers []Popper `json:"poppers"`
 	Pushes  []Push   `json:"pushes"`
+	// Crowd: many clients wait on one key for fewer elements than there are waiters, while another client
+	// keeps reading a very long list that shares lock stripes with that key (ShardNum 1: two stripes): a push
+	// queues behind the long read, the waiters' polls queue behind the push, and all of them look at the
+	// list at the same moment once it is through
+	Crowd    bool `json:"crowd,omitempty"`
+	ShardNum int  `json:"shard_num,omitempty"`
 }
 
 type Popper struct {
@@ -187,6 +193,17 @@ type Push struct {
 
 func GenBlock(t *rapid.T) BlockCase {
 	var c BlockCase
+	if rapid.IntRange(0, 2).Draw(t, "crowd") == 0 {
+		c.Crowd, c.ShardNum = true, 1
+		k := gen.Pick(t, "ck", "b1", "b2")
+		for i, n := 0, rapid.IntRange(4, 12).Draw(t, "waiters"); i < n; i++ {
+			c.Poppers = append(c.Poppers, Popper{Left: rapid.Bool().Draw(t, "left"), Timeout: 2, Keys: []string{k}})
+		}
+		for i, n := 0, rapid.IntRange(1, 3).Draw(t, "cpushes"); i < n; i++ {
+			c.Pushes = append(c.Pushes, Push{AtMs: rapid.SampledFrom([]int{150, 400, 700, 1100}).Draw(t, "cat"), Key: k, N: 1})
+		}
+		return c
+	}
 	np := rapid.IntRange(1, 4).Draw(t, "poppers")
 	for i := 0; i < np; i++ {
 		p := Popper{Left: rapid.Bool().Draw(t, "left"), Timeout: rapid.IntRange(1, 2).Draw(t, "timeout"), Keys: []string{gen.Pick(t, "bk", "b1", "b2")}}
